@@ -106,12 +106,12 @@ def certFails (half : K) (st : Settings K) (u : UserProblem K n p m) (q : Point 
 
 /-- C08: well-formedness of the result vectors. `isFin` says whether a scalar is an ordinary finite number,
     `posInf` is the value the code stores for the slack of an absent bound. -/
-def wellFormedFails [DecidableEq K] (isFin : K → Bool) (posInf : K) (u : UserProblem K n p m) (q : Point K n p m) : List String :=
+def wellFormedFails [BEq K] (isFin : K → Bool) (posInf : K) (u : UserProblem K n p m) (q : Point K n p m) : List String :=
   let bad (name : String) (c : Bool) : List String := if c then [name] else []
-  bad "z_lb-not-0-at-infinite-bound" ((List.finRange n).any fun j => u.lb[j].isNone && decide (q.z_lb[j] ≠ 0)) ++
-  bad "z_ub-not-0-at-infinite-bound" ((List.finRange n).any fun j => u.ub[j].isNone && decide (q.z_ub[j] ≠ 0)) ++
-  bad "s_lb-not-inf-at-infinite-bound" ((List.finRange n).any fun j => u.lb[j].isNone && decide (q.s_lb[j] ≠ posInf)) ++
-  bad "s_ub-not-inf-at-infinite-bound" ((List.finRange n).any fun j => u.ub[j].isNone && decide (q.s_ub[j] ≠ posInf)) ++
+  bad "z_lb-not-0-at-infinite-bound" ((List.finRange n).any fun j => u.lb[j].isNone && !(q.z_lb[j] == 0)) ++
+  bad "z_ub-not-0-at-infinite-bound" ((List.finRange n).any fun j => u.ub[j].isNone && !(q.z_ub[j] == 0)) ++
+  bad "s_lb-not-inf-at-infinite-bound" ((List.finRange n).any fun j => u.lb[j].isNone && !(q.s_lb[j] == posInf)) ++
+  bad "s_ub-not-inf-at-infinite-bound" ((List.finRange n).any fun j => u.ub[j].isNone && !(q.s_ub[j] == posInf)) ++
   bad "non-finite-entry" ((List.finRange n).any (fun j => !isFin q.x[j]) || (List.finRange p).any (fun i => !isFin q.y[i]) ||
        (List.finRange m).any (fun i => !isFin q.z[i] || !isFin q.s[i]) ||
        (List.finRange n).any (fun j => (u.lb[j].isSome && (!isFin q.z_lb[j] || !isFin q.s_lb[j])) ||
@@ -122,7 +122,7 @@ def wellFormedFails [DecidableEq K] (isFin : K → Bool) (posInf : K) (u : UserP
        (List.finRange n).any (fun j => (u.lb[j].isSome && !decide (0 < q.s_lb[j])) || (u.ub[j].isSome && !decide (0 < q.s_ub[j]))))
 
 /-- C09: diagnostics that differ from the quantities of the returned point -/
-def diagFails [DecidableEq K] (half : K) (st : Settings K) (u : UserProblem K n p m) (q : Point K n p m)
+def diagFails [BEq K] (half : K) (st : Settings K) (u : UserProblem K n p m) (q : Point K n p m)
     (info : Info K) (returned : Status) : List String :=
   let t := quantities half u q
   let bad (name : String) (c : Bool) : List String := if c then [name] else []
@@ -130,11 +130,11 @@ def diagFails [DecidableEq K] (half : K) (st : Settings K) (u : UserProblem K n 
   let verdict := decide (returned = .solved) || decide (returned = .primalInfeasible) || decide (returned = .dualInfeasible)
   bad "info.status" (decide (info.status ≠ returned)) ++
   bad "info.iter>max_iter" (decide (st.maxIter < (info.iter : Int))) ++
-  bad "primal_obj" (ran && decide (info.primalObj ≠ t.primalObj)) ++
-  bad "dual_obj" (ran && decide (info.dualObj ≠ t.dualObj)) ++
-  bad "duality_gap" (ran && decide (info.dualityGap ≠ t.dualityGap)) ++
-  bad "primal_inf" (verdict && decide (info.primalInf ≠ t.primalInf)) ++
-  bad "dual_inf" (verdict && decide (info.dualInf ≠ t.dualInf))
+  bad "primal_obj" (ran && !(info.primalObj == t.primalObj)) ++
+  bad "dual_obj" (ran && !(info.dualObj == t.dualObj)) ++
+  bad "duality_gap" (ran && !(info.dualityGap == t.dualityGap)) ++
+  bad "primal_inf" (verdict && !(info.primalInf == t.primalInf)) ++
+  bad "dual_inf" (verdict && !(info.dualInf == t.dualInf))
 
 end
 end Piqp
